@@ -118,7 +118,7 @@ PROPS = {
     "C13": dict(
         props="props/C13.v",
         libs=["theories/ErrFmt.vo"],
-        streams=[dict(name="c13")],
+        streams=[dict(name="c13", args=["-repo", REPO])],
         mismatch_is_violation=True,   # ToString panics where the model says it does not (or vice versa)
         modelled="builder/error.go ToString (every strings.Repeat count, ErrFmt.v; the guard in space() is read from the source), the settings front end (Settings.v); "
                  "the inventory of explicit panic( sites is regenerated from the source; the generator itself is fuzzed under recover (not modelled for this property)",
